@@ -572,4 +572,31 @@ theorem bracIdx_scale (c : ℚ) (hc : 0 < c) (a : List ℚ) (thr : ℚ) :
   · intro h; exact lt_of_mul_lt_mul_left h hc.le
   · intro h; exact mul_lt_mul_of_pos_left h hc
 
+/-! ### specification predicates used by the C10 statements -/
+
+/-- sample `i` of the cumulative series lies strictly between the two fractions of the total -/
+def Between (im : List ℚ) (s e tot : ℚ) (i : Nat) : Prop :=
+  ∃ h : i < im.length, s * tot < im[i] ∧ im[i] < e * tot
+
+theorem isFirstLast_sigMask_iff (im : List ℚ) (s e tot : ℚ) (i0 i1 : Nat) :
+    IsFirstLast (sigMask s e tot) im i0 i1 ↔
+      Between im s e tot i0 ∧ Between im s e tot i1 ∧ ∀ j, Between im s e tot j → i0 ≤ j ∧ j ≤ i1 := by
+  unfold IsFirstLast Between
+  simp only [sigMask_iff]
+  constructor
+  · rintro ⟨h0, h1, h2⟩; exact ⟨h0, h1, fun j ⟨hj, hb⟩ => h2 j hj hb⟩
+  · rintro ⟨h0, h1, h2⟩; exact ⟨h0, h1, fun j hj hb => h2 j ⟨hj, hb⟩⟩
+
+/-- sample `i` exceeds the threshold in absolute value -/
+def Exceeds (a : List ℚ) (thr : ℚ) (i : Nat) : Prop := ∃ h : i < a.length, thr < |a[i]|
+
+theorem isFirstLast_bracMask_iff (a : List ℚ) (thr : ℚ) (i0 i1 : Nat) :
+    IsFirstLast (bracMask thr) a i0 i1 ↔
+      Exceeds a thr i0 ∧ Exceeds a thr i1 ∧ ∀ j, Exceeds a thr j → i0 ≤ j ∧ j ≤ i1 := by
+  unfold IsFirstLast Exceeds
+  simp only [bracMask_iff]
+  constructor
+  · rintro ⟨h0, h1, h2⟩; exact ⟨h0, h1, fun j ⟨hj, hb⟩ => h2 j hj hb⟩
+  · rintro ⟨h0, h1, h2⟩; exact ⟨h0, h1, fun j hj hb => h2 j ⟨hj, hb⟩⟩
+
 end EqsigVerif.Lemmas.Im
